@@ -352,11 +352,14 @@ def b_failures(ctx):
 
 
 META = {
-    'level': 'exploration',
-    'explanation': "bounded stand-in (labelled): the round trip runs through h5py, pandas group-by / merge and HDF5 variable-length types, none of which the verification-condition "
-                   "generator models; the export / import contract is evaluated on the real classes for generated meshes and call histories.",
-    'not_decided': ["meshes and histories beyond the generated ones"],
-    'trusted_base': ['h5py / HDF5 as storage'],
+    'level': 'other',
+    'explanation': "mixed. Proved, for every crash point: the roll-back of VMAPExport.add_geometry and add_variable. The real methods (and the helpers they call) are executed "
+                   "symbolically over an abstract HDF5 file and arbitrary mesh / numpy / pandas objects whose every operation may fail (pv/ghost.py); on every raising path the "
+                   "geometry / variable group is absent or the untouched old one, the MYSIZE counter is unchanged and nothing outside the call's own subtree is written; on returning "
+                   "paths the object is new and complete. Replayed by fault injection into the real h5py. The round trip itself runs through h5py, pandas group-by / merge and "
+                   "HDF5 variable-length types, which the generator does not model: it is a bounded stand-in on generated meshes and call histories.",
+    'not_decided': ["round trip of meshes and histories beyond the generated ones", "add_node_set / add_element_set roll-back (marked unreachable in the code)"],
+    'trusted_base': ['abstract HDF5 file model (pv/ghost.py)', 'h5py / HDF5 as storage', 'exceptions are of class Exception'],
 }
 
 
